@@ -16,11 +16,15 @@ type Node struct {
 	RawKeys    []string // member names as written (between the quotes, escapes intact)
 	Kids       []*Node
 	Start, End int
+	// IllFormed: the string token holds raw bytes that are not UTF-8 (Str has U+FFFD for them)
+	IllFormed bool
 }
 
 type parser struct {
 	b []byte
 	i int
+	// ill: the string scanned last contained raw ill-formed UTF-8
+	ill bool
 }
 
 // Parse parses exactly one RFC 8259 text (surrounding whitespace allowed).
@@ -136,7 +140,7 @@ func (p *parser) value(depth int) (*Node, error) {
 		if err != nil {
 			return nil, err
 		}
-		return &Node{Kind: 's', Str: s, Start: start, End: p.i}, nil
+		return &Node{Kind: 's', Str: s, Start: start, End: p.i, IllFormed: p.ill}, nil
 	case c == 't':
 		return p.lit("true", 't')
 	case c == 'f':
@@ -196,6 +200,7 @@ func (p *parser) hex4(at int) (rune, bool) {
 // behaviour of encoding/json, which the properties name as the reference).
 func (p *parser) str() (string, error) {
 	var sb strings.Builder
+	p.ill = false
 	p.i++
 	for p.i < len(p.b) {
 		c := p.b[p.i]
@@ -259,6 +264,7 @@ func (p *parser) str() (string, error) {
 			r, size := utf8.DecodeRune(p.b[p.i:])
 			if r == utf8.RuneError && size == 1 {
 				sb.WriteRune(utf8.RuneError)
+				p.ill = true
 			} else {
 				sb.Write(p.b[p.i : p.i+size])
 			}
